@@ -17,11 +17,13 @@ EXPLANATION = (
     'ends), p < its window partner, or p is None / a sanitised value (coord_to_index, slice.indices, subscript of '
     'an exact-length array), or p is handed unchanged to a callee parameter whose own obligation is discharged '
     'without a relaxing flag. Comparator strictness and the axis of the extent are part of the fact. '
-    'C14.2 enumerates every call that passes access_padding=True.')
+    'C14.2 enumerates every call that passes access_padding=True. C14.4: the sanitiser coord_to_index itself is checked: '
+    'every ordinal it returns comes from an exact-equality search of the axis (or is len(axis) under the include-stop '
+    'flag and an exact-equality test), never from a tolerance / nearest-neighbour construct, and the not-found path '
+    'ends in IndexError.')
 ASSUMPTIONS = [
     'numpy subscripts of exact-length arrays raise IndexError or apply Python negative indexing',
     'parameter and attribute names denote what they say (n_ilines is the inline count); axis tags are seeded from names',
-    'coord_to_index raises IndexError for coordinates that are not on the axis',
     'access_padding is an internal escape hatch: public callers leave it False',
 ]
 NOT_DECIDED = ('Values: that the guarded arithmetic then addresses the right bytes is C02/C07. The analysis does not '
@@ -51,6 +53,10 @@ def run(ctx):
     ctx.rule('C14.1', 'every index-like parameter is bounded by the real extent of its axis at every sink it reaches')
     ctx.rule('C14.2', 'access_padding=True is passed only with index arguments bounded by real extents (or from private methods)')
     ctx.rule('C14.3', 'a dimensionality guard precedes every bounds guard of a mode-specific method (see C09.5)')
+    ctx.rule('C14.4', 'the coordinate sanitiser matches by exact equality and raises IndexError for absent coordinates')
+    from .. import sanitiser
+    sanitiser.check(ctx, 'C14.4')
+    ctx.floor('C14.4', 3, 'returns / not-found exit of coord_to_index')
     B = BoundsAnalysis(P, G)
     entries = public_entry_points(P, G, B)
     seen_fail = set()
